@@ -400,6 +400,13 @@ fn run_scenario(setting: Arc<dyn Setting>, program: Vec<Vec<Op>>, st: &mut Stats
     st.evaluations += n;
     st.transitions += verif_once::steps() - steps0;
     let distinct = logs.lock().unwrap().len();
+    if verif_once::steps() == steps0 {
+        // the setting's cell is not a std OnceLock any more: the shim does not interpose, the cell is
+        // not reset between executions, so these executions say nothing. Part (2b) below (every
+        // operation-level interleaving in fresh processes, uninstrumented) judges this setting.
+        st.outcome("cell-not-instrumented(judged-by-fresh-process-interleavings)");
+        return;
+    }
     if let Err(p) = result {
         let msg = p.downcast_ref::<String>().cloned().or_else(|| p.downcast_ref::<&str>().map(|s| s.to_string())).unwrap_or_default();
         st.outcome("violation:panic-or-deadlock");
@@ -557,6 +564,28 @@ fn paths() -> Vec<(&'static str, Box<dyn Fn(u64, bool) -> Dec>)> {
     ]
 }
 
+/// All interleavings (as sequences of thread indices) of threads with the given operation counts.
+fn merges(lens: &[usize]) -> Vec<Vec<usize>> {
+    fn rec(left: &mut Vec<usize>, cur: &mut Vec<usize>, out: &mut Vec<Vec<usize>>) {
+        if left.iter().all(|&n| n == 0) {
+            out.push(cur.clone());
+            return;
+        }
+        for t in 0..left.len() {
+            if left[t] > 0 {
+                left[t] -= 1;
+                cur.push(t);
+                rec(left, cur, out);
+                cur.pop();
+                left[t] += 1;
+            }
+        }
+    }
+    let mut out = vec![];
+    rec(&mut lens.to_vec(), &mut vec![], &mut out);
+    out
+}
+
 fn limit_child(limit: usize) -> i32 {
     let got = apache_avro::util::max_allocation_bytes(limit);
     let mut problems: Vec<J> = vec![];
@@ -651,6 +680,28 @@ fn main() {
     if args.len() >= 3 && args[1] == "limit-child" {
         std::process::exit(limit_child(args[2].parse().unwrap()));
     }
+    if args.len() >= 6 && args[1] == "seq-child" {
+        let si: usize = args[2].parse().unwrap();
+        let pi: usize = args[3].parse().unwrap();
+        let tier = if args[4] == "thorough" { Tier::Thorough } else { Tier::Quick };
+        let order: Vec<usize> = args[5].split(',').filter(|x| !x.is_empty()).map(|x| x.parse().unwrap()).collect();
+        let setting = settings()[si].clone();
+        let prog = scenarios(tier)[pi].clone();
+        let mut next = vec![0usize; prog.len()];
+        let mut log = vec![];
+        for t in order {
+            let op = prog[t][next[t]];
+            next[t] += 1;
+            log.push((t, op, setting.run(op)));
+        }
+        let fin = setting.settle();
+        let firsts: u8 = prog.iter().fold(0, |m, ops| m | setting.installs(ops[0]));
+        // sequential: the very first operation executed decides
+        let first_installed = log.first().map(|(t, _, _)| setting.installs(prog[*t][0])).unwrap_or(firsts);
+        let ok = fin != 0 && log.iter().all(|x| x.2 & fin == fin) && fin & first_installed == fin;
+        println!("{}", json!({"ok": ok, "log": log.iter().map(|(t, o, v)| format!("t{t}:{o:?}->{}", mask_name(*v))).collect::<Vec<_>>(), "final": mask_name(fin), "first_operation_installs": mask_name(first_installed)}));
+        std::process::exit(0);
+    }
     if args.len() >= 2 && args[1] == "plain-threads-child" {
         std::process::exit(plain_threads_child());
     }
@@ -685,6 +736,26 @@ fn main() {
         } else {
             st.outcome("violation:limit-not-uniform");
             st.violate(1_000 + i as u64, "the configured allocation limit is not the one every decoder applies", json!({"limit": l, "problems": problems}), json!({"limit": l}));
+        }
+    }
+    // (2b) every operation-level interleaving of every thread program, each in a fresh process on the
+    // uninstrumented primitives (operations as atomic units): sound whatever primitive the setting uses
+    for (si, s) in settings().iter().enumerate() {
+        for (pi, prog) in scenarios(tier).iter().enumerate() {
+            for sched in merges(&prog.iter().map(|t| t.len()).collect::<Vec<_>>()) {
+                let arg = sched.iter().map(|t| t.to_string()).collect::<Vec<_>>().join(",");
+                let out = std::process::Command::new(&exe).args(["seq-child", &si.to_string(), &pi.to_string(), tier.name(), &arg]).output().unwrap_or_else(|e| ev::machinery(&format!("seq child: {e}")));
+                let j: J = serde_json::from_slice(&out.stdout).unwrap_or(json!({"ok": false, "crashed": format!("{:?}", out.status), "stderr": ev::trunc(&String::from_utf8_lossy(&out.stderr), 300)}));
+                st.states += 1;
+                st.evaluations += 1;
+                st.transitions += sched.len() as u64;
+                if j["ok"] == true {
+                    st.outcome("fresh-process-interleaving-first-set-wins");
+                } else {
+                    st.outcome("violation:fresh-process-interleaving");
+                    st.violate(3_000_000 + (si * 10_000 + pi * 100) as u64, "an operation-level interleaving (fresh process, uninstrumented) breaks first-set-wins", json!({"setting": s.name(), "threads": format!("{prog:?}"), "thread_order": arg, "observed": j}), json!({"setting": s.name()}));
+                }
+            }
         }
     }
     // (3) real threads on the real primitive (fresh processes, supporting evidence only for schedules,
